@@ -149,6 +149,12 @@ func (e *Engine) Run(t *core.Tape, cfg *core.Config, st *core.Stats) *core.Viola
 		src = "local emit = emit\n" + fmt.Sprintf(templates[i].src, k)
 		name = templates[i].name
 	}
+	// a host function may replace the attached context in mid-run; the cancellation then hits the new one
+	if name != "simlua" && t.Choose(4) == 0 {
+		src = "reattach()\n" + src
+		name += "@reattach"
+		st.Probe("context_replaced_in_mid_run")
+	}
 	// the context may be attached to a thread created from a context-less main state
 	onThread = name != "simlua" && t.Choose(3) == 0
 	if onThread {
